@@ -40,6 +40,7 @@ type Event struct {
 	Pos    token.Pos
 	Stack  []string
 	Instr  ssa.Instruction
+	Guards map[string]bool // undecided branch outcomes holding at the event (copy and ext-call events)
 }
 
 type StoreEvent struct {
@@ -294,78 +295,39 @@ func (ip *Interp) Call(fn *ssa.Function, args []Val, bind []Val, st *State) (res
 		}
 		ip.LiveBlock[b] = true
 		ip.gate, ip.gateExact, ip.gateSwap = "", false, false
+		var tree *mnode
 		if len(in) > 1 {
-			// the branch controlling this merge: terminator of the nearest common
-			// dominator of the live predecessors
-			lca := in[0].pred
-			for lca != nil {
-				all := true
-				for _, e := range in[1:] {
-					if !lca.Dominates(e.pred) {
-						all = false
-						break
-					}
-				}
-				if all {
-					break
-				}
-				lca = lca.Idom()
+			idxs := make([]int, len(in))
+			for i := range in {
+				idxs[i] = i
 			}
-			if lca != nil && len(lca.Instrs) > 0 {
-				if iff, ok := lca.Instrs[len(lca.Instrs)-1].(*ssa.If); ok {
-					if cv, ok := act.env[iff.Cond]; ok {
-						ip.gate = ValKey(cv)
-						// an exact gated merge (gamma function) needs two live edges, one
-						// per side of the branch, and a condition with an identity
-						if cb, isB := cv.(*Bool); isB && len(in) == 2 && (cb.Cmp != nil || cb.Key != "") && lca.Succs[0] != lca.Succs[1] {
-							side := func(p *ssa.BasicBlock) int {
-								if p == lca {
-									if b == lca.Succs[0] {
-										return 0
-									}
-									return 1
-								}
-								t, f := lca.Succs[0].Dominates(p), lca.Succs[1].Dominates(p)
-								switch {
-								case t && !f:
-									return 0
-								case f && !t:
-									return 1
-								}
-								return -1
-							}
-							s0, s1 := side(in[0].pred), side(in[1].pred)
-							if s0 >= 0 && s1 >= 0 && s0 != s1 {
-								ip.gateExact = true
-								ip.gateSwap = s0 == 1
-							}
-						}
-					}
-				}
-			}
+			tree = ip.buildMerge(act, b, in, idxs)
 		}
-		cur := ip.mergeIn(in)
-		// phis first, evaluated against the per-edge states
+		cur := in[0].st
+		if tree != nil {
+			cur = ip.foldState(tree, in)
+		}
+		// phis, evaluated against the per-edge states and folded along the same tree
 		for _, instr := range b.Instrs {
 			phi, ok := instr.(*ssa.Phi)
 			if !ok {
 				break
 			}
-			var acc Val
-			for _, e := range in {
-				idx := predIndex(b, e.pred)
-				if idx < 0 {
-					continue
+			if tree == nil {
+				if idx := predIndex(b, in[0].pred); idx >= 0 {
+					act.env[phi] = ip.get(act, in[0].st, phi.Edges[idx])
 				}
-				v := ip.get(act, e.st, phi.Edges[idx])
-				if acc == nil {
-					acc = v
-				} else {
-					acc = ip.JoinVal(acc, v)
-				}
+				continue
 			}
-			act.env[phi] = acc
+			act.env[phi] = ip.foldVal(tree, func(e int) Val {
+				idx := predIndex(b, in[e].pred)
+				if idx < 0 {
+					return ip.topOf(phi.Type(), "phi-edge")
+				}
+				return ip.get(act, in[e].st, phi.Edges[idx])
+			})
 		}
+		ip.gate, ip.gateExact, ip.gateSwap = "", false, false
 		live := true
 		for _, instr := range b.Instrs {
 			if _, ok := instr.(*ssa.Phi); ok {
@@ -458,27 +420,95 @@ func predIndex(b, pred *ssa.BasicBlock) int {
 	return -1
 }
 
-func (ip *Interp) mergeIn(in []edgeIn) *State {
-	if len(in) == 1 {
-		return in[0].st
+// mnode is a node of the merge tree of a join block: a leaf is one live incoming
+// edge; an inner node merges the edges on the true side and on the false side of
+// the branch `gate` (exact), or two arbitrary groups (inexact).
+type mnode struct {
+	edge  int
+	gate  string
+	exact bool
+	t, f  *mnode
+}
+
+func (ip *Interp) buildMerge(act *activation, b *ssa.BasicBlock, in []edgeIn, idxs []int) *mnode {
+	if len(idxs) == 1 {
+		return &mnode{edge: idxs[0]}
 	}
-	h := in[0].st.Heap
-	ref := in[0].st.refine
-	for _, e := range in[1:] {
-		h = ip.joinHeaps(h, e.st.Heap)
-		// keep only refinements present on every edge
-		nr := map[ssa.Value]Val{}
-		for k, v := range ref {
-			if w, ok := e.st.refine[k]; ok {
-				nr[k] = ip.JoinVal(v, w)
+	// nearest common dominator of the predecessors in this group
+	lca := in[idxs[0]].pred
+	for lca != nil {
+		all := true
+		for _, i := range idxs[1:] {
+			if !lca.Dominates(in[i].pred) {
+				all = false
+				break
 			}
 		}
-		ref = nr
+		if all {
+			break
+		}
+		lca = lca.Idom()
 	}
-	if in[0].st.Heap == h {
-		h = h.Fork()
+	if lca != nil && len(lca.Instrs) > 0 {
+		if iff, ok := lca.Instrs[len(lca.Instrs)-1].(*ssa.If); ok && lca.Succs[0] != lca.Succs[1] {
+			if cb, isB := act.env[iff.Cond].(*Bool); isB && cb.K == TriTop && (cb.Cmp != nil || cb.Key != "") {
+				var ts, fs []int
+				ok := true
+				for _, i := range idxs {
+					p := in[i].pred
+					switch {
+					case p == lca:
+						if b == lca.Succs[0] {
+							ts = append(ts, i)
+						} else {
+							fs = append(fs, i)
+						}
+					case lca.Succs[0].Dominates(p) && !lca.Succs[1].Dominates(p):
+						ts = append(ts, i)
+					case lca.Succs[1].Dominates(p) && !lca.Succs[0].Dominates(p):
+						fs = append(fs, i)
+					default:
+						ok = false
+					}
+				}
+				if ok && len(ts) > 0 && len(fs) > 0 {
+					return &mnode{gate: ValKey(cb), exact: true, t: ip.buildMerge(act, b, in, ts), f: ip.buildMerge(act, b, in, fs)}
+				}
+			}
+		}
 	}
-	return &State{Heap: h, refine: ref}
+	// no usable controlling branch: inexact sequential merge
+	return &mnode{gate: "", exact: false, t: ip.buildMerge(act, b, in, idxs[:1]), f: ip.buildMerge(act, b, in, idxs[1:])}
+}
+
+func (ip *Interp) setGate(n *mnode) {
+	ip.gate, ip.gateExact, ip.gateSwap = n.gate, n.exact, false
+}
+
+func (ip *Interp) foldVal(n *mnode, leaf func(int) Val) Val {
+	if n.t == nil {
+		return leaf(n.edge)
+	}
+	a, b := ip.foldVal(n.t, leaf), ip.foldVal(n.f, leaf)
+	ip.setGate(n)
+	return ip.JoinVal(a, b)
+}
+
+func (ip *Interp) foldState(n *mnode, in []edgeIn) *State {
+	if n.t == nil {
+		return in[n.edge].st
+	}
+	a, b := ip.foldState(n.t, in), ip.foldState(n.f, in)
+	ip.setGate(n)
+	h := ip.joinHeaps(a.Heap, b.Heap)
+	// keep only refinements present on both sides
+	nr := map[ssa.Value]Val{}
+	for k, v := range a.refine {
+		if w, ok := b.refine[k]; ok {
+			nr[k] = ip.JoinVal(v, w)
+		}
+	}
+	return &State{Heap: h, refine: nr}
 }
 
 func (ip *Interp) refineEdge(act *activation, s *State, cond ssa.Value, cb *Bool, outcome bool) {
@@ -1268,7 +1298,7 @@ func (ip *Interp) callFunc(st *State, site ssa.CallInstruction, fn *ssa.Function
 		return res, true
 	}
 	name := fn.String()
-	ev := ip.event(Event{Kind: "ext-call", Callee: name, Args: args, Instr: site})
+	ev := ip.event(Event{Kind: "ext-call", Callee: name, Args: args, Instr: site, Guards: ip.Guards(st)})
 	if ip.Hooks.ExtCall != nil {
 		if res, ok := ip.Hooks.ExtCall(ip, st, ev); ok {
 			ev.Result = res
@@ -1330,7 +1360,7 @@ func (ip *Interp) builtin(act *activation, st *State, site ssa.CallInstruction, 
 		return v.reduce(), true
 	case "copy":
 		dst, _ := args[0].(*Slice)
-		ev := ip.event(Event{Kind: "copy", Args: args, Instr: site})
+		ev := ip.event(Event{Kind: "copy", Args: args, Instr: site, Guards: ip.Guards(st)})
 		hi := uint64(1 << 40)
 		if dst != nil && dst.Len.Hi < hi {
 			hi = dst.Len.Hi
